@@ -791,13 +791,24 @@ class _AddConstraint(_Backend):
     assigns = ("pysnark.*:constraints",)
 
     def configs(self, tier):
-        return [dict(earlier=e) for e in ("none", "same_variables", "identical")]
+        # rows: over variables; over the constant wire only (0*0 = c is how a false relation between constants is
+        # recorded: dropping it makes the system satisfiable); over nothing at all
+        return [dict(earlier=e) for e in ("none", "same_variables", "identical")] + \
+               [dict(earlier="none", row=r) for r in ("constants", "zero_times_zero_is_constant", "empty")]
 
     def setup(self, c, cfg):
         m = self.mod(c)
         LC = m.LinearCombination
-        mk = lambda tag: (LC({1: SymInt(z3.Int("s_%sa" % tag)), -1: SymInt(z3.Int("s_%sb" % tag))}), LC({-1: SymInt(z3.Int("s_%sc" % tag))}),
-                          LC({0: SymInt(z3.Int("s_%sd" % tag)), 1: SymInt(z3.Int("s_%se" % tag))}))
+        S = lambda nm: SymInt(z3.Int("s_" + nm))
+        row = cfg.get("row", "variables")
+        if row == "variables":
+            mk = lambda tag: (LC({1: S(tag + "a"), -1: S(tag + "b")}), LC({-1: S(tag + "c")}), LC({0: S(tag + "d"), 1: S(tag + "e")}))
+        elif row == "constants":
+            mk = lambda tag: (LC({0: S(tag + "a")}), LC({0: S(tag + "b")}), LC({0: S(tag + "c")}))
+        elif row == "zero_times_zero_is_constant":
+            mk = lambda tag: (LC({}), LC({}), LC({0: S(tag + "c")}))
+        else:
+            mk = lambda tag: (LC({}), LC({}), LC({}))
         m.constraints[:] = []
         self._first = None
         if cfg["earlier"] != "none":
